@@ -76,6 +76,7 @@ type Frame struct {
 	loopMods  map[int]map[string][]Term
 	iterCells map[*ssa.Range]*Cell
 	unlockIdx int
+	phiOv     map[*ssa.Phi]Value // loop-header phis havoced by loopEnter (replaced, never mutated)
 }
 
 type lockHeld struct {
@@ -443,6 +444,12 @@ func sliceSel(s Term, i int, sel, sort string) Term {
 }
 func sArr(s Term) Term { return sliceSel(s, 1, "s-arr", "Ref") }
 func sOff(s Term) Term { return sliceSel(s, 2, "s-off", "Int") }
+func sIdx(off, k Term) Term {
+	if off.S == "0" {
+		return k
+	}
+	return App("sidx", "Int", off, k)
+}
 func sLen(s Term) Term { return sliceSel(s, 3, "s-len", "Int") }
 func sCap(s Term) Term { return sliceSel(s, 4, "s-cap", "Int") }
 func mkSlice(arr, off, ln, cp Term) Term {
